@@ -92,6 +92,20 @@ def obligations(S):
                 want = ex.child_of(inp, "ast::Node<T>", None, 1, "T")
                 conj.append(v.same(fld, want))
             add("node-holds-the-given-subexpressions", z3.And(conj), {"result": ex.val_name(p.st, r)[:160]})
+            if cname == "Not::new":
+                # `!e` fails at runtime unless e is a boolean and Not::type_info does not look at the kind: the
+                # constructor is the only guard -- an accepted node's operand type passed `is_boolean`
+                pcs = [str(c).replace("\n", " ") for c in p.st.pc]
+
+                def pos_bool(c):
+                    n = 0
+                    while c.startswith("Not(") and c.endswith(")"):
+                        c, n = c[4:-1], n + 1
+                    return n % 2 == 0 and "is_boolean(" in c and "node" in c
+                o = Obl("C02:Not::new:accepts-only-boolean-operands", {"C02"}, f"C02:Not::new:accepts-only-boolean-operands#path{pi}", p,
+                        z3.BoolVal(any(pos_bool(c) for c in pcs)), {"path_condition": pcs[:6]})
+                o.ex = ex
+                obls.append(o)
         if n_ok == 0:
             raise Unencodable(f"{cname}: no Ok path (vacuous)")
     return obls, sorted(set(fns))
